@@ -39,42 +39,49 @@ Steps(p, au, path) ==
 \* "configs-stalled": the device acts on the first transition command of the path but its answer never arrives: the operation
 \* times out with the device one step along the path; the operation after it is a plain command, which must find its way from
 \* where the device really is (the cached level must not survive a transition that was started).
+\* "configs-file-at": the lines come from a file, the level from the per-operation option (the less used variant of configs-at).
+\* "configs-at-unknown": the per-operation option names a level that does not exist: refused, nothing sent.
+\* "reopen-late": a command is sent and the device's answer comes too late - the operation times out, the answer arrives
+\* afterwards and nobody reads it; the caller closes and opens the same driver again.  The device starts the new session in the
+\* mode it starts every session in; what the old session left unread must not be taken for the state of the new one, so the
+\* operation after it (a configs) takes the path from the start mode.
 OpKinds == << "acquire", "command", "configs", "configs-at", "acquire", "interactive", "command", "acquire-unknown", "config", "configs-leave",
-              "rename", "configs-stalled" >>
+              "rename", "configs-stalled", "configs-file-at", "configs-at-unknown", "reopen-late" >>
 
-RECURSIVE RunOps(_, _, _, _, _, _, _, _, _)
-\* returns the sequence of per-operation expectations, threading the device mode; left: "" | "leave" | "stalled" (what the previous operation was)
-RunOps(m, p, au, def, conf, mode, j, left, tw) ==
+RECURSIVE RunOps(_, _, _, _, _, _, _, _, _, _)
+\* returns the sequence of per-operation expectations, threading the device mode; left: "" | "leave" | "stalled" | "reopened" (what the previous operation was)
+RunOps(m, p, au, def, conf, mode, j, left, tw, st) ==
   IF j > 1 + Below(4, m, 40) + (IF left # "" THEN 1 ELSE 0) THEN <<>>
   ELSE LET kind0 == Pick(OpKinds, m, 50 + j)
            pathc == PathI(p, mode, conf)
            \* a stalled transition is only generated for a first step that needs no password (the dialogue would hang in the middle otherwise)
            \* and only without twin levels: after a transition that was started the cache is rightly forgotten, and without it twins cannot be told apart
            stallable == ~tw /\ Len(pathc) >= 2 /\ (p[pathc[1]] = pathc[2] \/ au[pathc[2]] = "no")
-           kind == CASE left = "leave" -> "configs"
+           kind == CASE left \in {"leave", "reopened"} -> "configs"
                      [] left = "stalled" -> "command"
                      [] kind0 = "configs-leave" /\ p[conf] = NONE -> "configs"
                      [] kind0 = "configs-stalled" /\ ~stallable -> "configs"
                      [] OTHER -> kind0
            nn   == Len(p)
            tgt  == CASE kind = "acquire" -> 1 + Below(nn, m, 60 + j)
-                     [] kind = "configs-at" -> 1 + Below(nn, m, 60 + j)
-                     [] kind \in {"command", "interactive"} -> def
+                     [] kind \in {"configs-at", "configs-file-at"} -> 1 + Below(nn, m, 60 + j)
+                     [] kind \in {"command", "interactive", "reopen-late"} -> def
                      [] kind \in {"configs", "config", "configs-leave", "configs-stalled"} -> conf
                      [] OTHER -> 0
            steps0 == IF tgt = 0 THEN <<>> ELSE Steps(p, au, PathI(p, mode, tgt))
            steps == IF kind = "configs-stalled" THEN << steps0[1] >> ELSE steps0
-           pay   == CASE kind \in {"command", "interactive"} -> << [kind |-> "line", level |-> tgt, mode |-> tgt] >>
-                      [] kind \in {"configs", "configs-at", "config"} -> << [kind |-> "line", level |-> tgt, mode |-> tgt], [kind |-> "line", level |-> tgt, mode |-> tgt] >>
+           pay   == CASE kind \in {"command", "interactive", "reopen-late"} -> << [kind |-> "line", level |-> tgt, mode |-> tgt] >>
+                      [] kind \in {"configs", "configs-at", "config", "configs-file-at"} -> << [kind |-> "line", level |-> tgt, mode |-> tgt], [kind |-> "line", level |-> tgt, mode |-> tgt] >>
                       [] kind = "configs-leave" -> << [kind |-> "line", level |-> tgt, mode |-> tgt], [kind |-> "deesc", level |-> tgt, mode |-> tgt] >>
                       [] OTHER -> <<>>
            nmode == CASE tgt = 0 -> mode
                       [] kind = "configs-leave" -> p[tgt]
                       [] kind = "configs-stalled" -> pathc[2]
+                      [] kind = "reopen-late" -> st
                       [] OTHER -> tgt
-       IN << [op |-> kind, target |-> tgt, class |-> CASE kind = "rename" -> "ok" [] kind = "configs-stalled" -> "timeout" [] tgt = 0 -> "privilege" [] OTHER -> "ok",
+       IN << [op |-> kind, target |-> tgt, class |-> CASE kind = "rename" -> "ok" [] kind \in {"configs-stalled", "reopen-late"} -> "timeout" [] tgt = 0 -> "privilege" [] OTHER -> "ok",
               steps |-> steps \o pay, final |-> nmode] >>
-          \o RunOps(m, p, au, def, conf, nmode, j + 1, CASE kind = "configs-leave" -> "leave" [] kind = "configs-stalled" -> "stalled" [] OTHER -> "", tw)
+          \o RunOps(m, p, au, def, conf, nmode, j + 1, CASE kind = "configs-leave" -> "leave" [] kind = "configs-stalled" -> "stalled" [] kind = "reopen-late" -> "reopened" [] OTHER -> "", tw, st)
 
 Scn(m) ==
   LET nn   == 2 + Below(3, m, 1)                                  \* 2..4 levels
@@ -91,7 +98,7 @@ Scn(m) ==
       st0  == 1 + Below(nn, m, 4)
       st   == IF st0 = twin[1] \/ st0 = twin[2] THEN 1 ELSE st0
   IN [id |-> m, n |-> nn, parent |-> p, auth |-> au, def |-> def, conf |-> conf, start |-> st, twin |-> twin,
-      ops |-> RunOps(m, p, au, def, conf, st, 1, "", twin # <<0, 0>>)]
+      ops |-> RunOps(m, p, au, def, conf, st, 1, "", twin # <<0, 0>>, st)]
 
 Init == n = 0
 Next == n < Count /\ n' = n + 1 /\ PrintT("SCN " \o ToJson(Scn(n)))
